@@ -440,6 +440,54 @@ func runOnlyHelps(modality string, tr []bool) periodCase {
 	return periodCase{Name: modality, Trace: tr, Codes: reportsOf(&res, "al"), Panic: problem(&res, false)}
 }
 
+// runTwoOfOneModality: two auditors of the SAME modality audit during the same
+// activation periods (mood red) with complementary predicates: a sample of 5
+// makes al's predicate hold and bo's fail, a sample of 1 the reverse.  Each
+// period of each auditor is judged on that auditor's own observations only
+// (evaluators are per auditor and per period, never shared or recycled).
+func runTwoOfOneModality(modality string, traces [][]bool) []periodCase {
+	cfg := roleText + "audience\n  al audits only while mood == 'red'\n  al expects " + modality + ": [x s] > 3\n" +
+		"  bo audits only while mood == 'red'\n  bo expects " + modality + ": [x s] < 3\nend\n"
+	var evs []cmd.VerifEvent
+	ts := 0.0
+	type span struct{ from, to int }
+	var spans []span
+	for _, tr := range traces {
+		ts += 0.5
+		from := len(evs)
+		evs = append(evs, cmd.VerifEvent{Kind: "mood", Ts: ts, Mood: "red"})
+		for _, b := range tr {
+			ts += 0.5
+			evs = append(evs, sample(ts, b))
+		}
+		ts += 0.5
+		spans = append(spans, span{from, len(evs)})
+		evs = append(evs, cmd.VerifEvent{Kind: "mood", Ts: ts, Mood: "clear"})
+	}
+	evs = append(evs, cmd.VerifEvent{Kind: "final", Ts: ts + 1.2871})
+	res := cmd.VerifAuditLoop(cfg, evs, false)
+	var out []periodCase
+	for k, tr := range traces {
+		neg := make([]bool, len(tr))
+		for i, b := range tr {
+			neg[i] = !b
+		}
+		for _, who := range []string{"al", "bo"} {
+			pc := periodCase{Name: modality, Trace: tr, Panic: problem(&res, false)}
+			if who == "bo" {
+				pc.Trace = neg
+			}
+			for _, o := range res.Outs {
+				if o.Kind == "report" && o.Auditor == who && o.Round >= spans[k].from && o.Round <= spans[k].to {
+					pc.Codes = append(pc.Codes, o.Result)
+				}
+			}
+			out = append(out, pc)
+		}
+	}
+	return out
+}
+
 type period3Case struct {
 	Name  string
 	Trace []int // 0 false, 1 true, 2 the predicate does not evaluate
@@ -580,6 +628,28 @@ func main() {
 				}
 				if l >= 1 {
 					audPeriods = append(audPeriods, runWithFailingNeighbour(n, tr))
+				}
+			}
+		}
+		// two auditors of one modality auditing side by side, three periods per play
+		{
+			var small [][]bool
+			for l := 0; l <= 3; l++ {
+				for bits := 0; bits < 1<<uint(l); bits++ {
+					tr := make([]bool, l)
+					for i := range tr {
+						tr[i] = bits&(1<<uint(i)) != 0
+					}
+					small = append(small, tr)
+				}
+			}
+			for _, step := range []int{1, 4, 7} {
+				for i := 0; i < len(small); i += 3 {
+					var group [][]bool
+					for j := 0; j < 3; j++ {
+						group = append(group, small[(i+j*step)%len(small)])
+					}
+					audPeriods = append(audPeriods, runTwoOfOneModality(n, group)...)
 				}
 			}
 		}
